@@ -1,9 +1,9 @@
 #!/bin/bash
 # usage: goal.sh theories/X/Y.v LINE  -- show the proof state after LINE (debug helper)
 f=$1; n=$2
-d=$(mktemp -d /verif/.cache/goal.XXXX 2>/dev/null || (mkdir -p /verif/.cache && mktemp -d /verif/.cache/goal.XXXX))
+here=$(cd "$(dirname "$0")/.." && pwd); mkdir -p $here/.cache; d=$(mktemp -d $here/.cache/goal.XXXX)
 b=$(basename $f .v)
 head -n $n $f > $d/$b.v
 echo "Show." >> $d/$b.v
-cd /verif/coq && coqc -Q theories Astria -w none $d/$b.v 2>&1 | head -${3:-60}
+cd $here/coq && timeout 600 coqc -Q theories Astria -w none $d/$b.v 2>&1 | head -${3:-60}
 rm -rf $d
